@@ -205,7 +205,6 @@ def register_kernels2(w):
 
     w.add_contract(Contract(
         f"{MO}:_value_is_graph_output", params={"graph": Ref(GRAPH), "value": Opt(Ref(VALUE))},
-        requires=[("len", lambda c: sel(c.ex.heap_arrays(GRAPH, "outputs")[1], c["graph"].term) >= 0)],
         loops={0: LoopSpec(invariant=inv_go, label="outputs")},
         ensures=[("iff_listed_by_identity_or_name", post_go)], raises=set(), ret=Bool, props=["C02"],
     ))
@@ -218,7 +217,6 @@ def register_kernels2(w):
 
     w.add_contract(Contract(
         f"{MO}:_value_escapes", params={"graph": Ref(GRAPH), "nodes": Seq(Ref(NODE)), "value": Opt(Ref(VALUE))},
-        requires=[("len", lambda c: sel(c.ex.heap_arrays(GRAPH, "outputs")[1], c["graph"].term) >= 0)],
         ensures=[("iff_graph_output_or_nested_reference", post_escapes)], raises=set(), ret=Bool, props=["C02", "C03"], witnesses=["D3a", "D3e", "D13"],
     ))
 
@@ -250,7 +248,6 @@ def register_kernels2(w):
 
     w.add_contract(Contract(
         f"{MO}:_side_inputs_are_scalar", params={"node": Ref(NODE), "data_value": Opt(Ref(VALUE))},
-        requires=[("len", lambda c: c.ex.read_field(c["node"], "inputs").length >= 0)],
         loops={0: LoopSpec(invariant=inv_side, label="inputs")},
         ensures=[("every_other_operand_is_a_broadcast_scalar", post_side)], raises=set(), ret=Bool, props=["C02", "C12"], witnesses=["D1", "D2"],
     ))
